@@ -1,1 +1,493 @@
+//! C09, second half: the shipped semiring applications (`lattices::semiring_application`) satisfy the
+//! semiring laws they claim, on all triples over a boundary alphabet.
+//!
+//! Each law instance is a pair of expression trees; both sides are evaluated with the REAL
+//! `Addition::add` / `Multiplication::mul` (panics caught) and with an exact model of the claimed
+//! structure (`None` = some intermediate value is not representable in the carrier type).
+//! Judgement:
+//!   * model defined everywhere: both real sides must return exactly the model's value (no panic);
+//!   * model undefined somewhere (true value exceeds u32): a panic on either side is a *refusal*
+//!     (counted, not a violation); if neither side panics the two real results must still be equal,
+//!     otherwise the law is broken silently on representable inputs -> violation.
+use std::fmt::Debug;
 
+use lattices::semiring_application::{BinaryTrust, ConfidenceScore, Cost, FuzzyLogic, Multiplicity, U32WithInfinity};
+use lattices::{Addition, Multiplication, One, Zero};
+use vf_explore::{Value, catch, json};
+
+use crate::classes::{Acc, Classes};
+
+/// Read the single private field of a semiring application (they have no accessor).
+fn peek<T, R: Copy>(t: &T) -> R {
+    assert_eq!(std::mem::size_of::<T>(), std::mem::size_of::<R>());
+    assert_eq!(std::mem::align_of::<T>(), std::mem::align_of::<R>());
+    unsafe { std::ptr::read(t as *const T as *const R) }
+}
+/// Build a semiring application from its single field (only needed for `BinaryTrust(false)`, which
+/// no public constructor produces).
+fn forge<T, R: Copy>(r: R) -> T {
+    assert_eq!(std::mem::size_of::<T>(), std::mem::size_of::<R>());
+    assert_eq!(std::mem::align_of::<T>(), std::mem::align_of::<R>());
+    unsafe { std::mem::transmute_copy::<R, T>(&r) }
+}
+
+pub trait App: Sized {
+    type Raw: Copy + PartialEq + Debug;
+    const NAME: &'static str;
+    const CLAIM: &'static str;
+    fn alphabet() -> Vec<Self::Raw>;
+    fn make(r: Self::Raw) -> Self;
+    fn raw(&self) -> Self::Raw;
+    fn add_(&mut self, o: Self);
+    fn mul_(&mut self, o: Self);
+    fn zero_(&self) -> Self::Raw;
+    fn one_(&self) -> Self::Raw;
+    /// exact operations of the claimed structure; None = result not representable
+    fn m_add(a: Self::Raw, b: Self::Raw) -> Option<Self::Raw>;
+    fn m_mul(a: Self::Raw, b: Self::Raw) -> Option<Self::Raw>;
+    fn m_zero() -> Self::Raw;
+    fn m_one() -> Self::Raw;
+}
+
+impl App for BinaryTrust {
+    type Raw = bool;
+    const NAME: &'static str = "BinaryTrust";
+    const CLAIM: &'static str = "({0,1}, OR, AND, False, True)";
+    fn alphabet() -> Vec<bool> {
+        vec![false, true]
+    }
+    fn make(r: bool) -> Self {
+        if r { BinaryTrust::new() } else { forge::<BinaryTrust, bool>(false) }
+    }
+    fn raw(&self) -> bool {
+        peek::<BinaryTrust, bool>(self)
+    }
+    fn add_(&mut self, o: Self) {
+        Addition::add(self, o)
+    }
+    fn mul_(&mut self, o: Self) {
+        Multiplication::mul(self, o)
+    }
+    fn zero_(&self) -> bool {
+        Zero::zero(self)
+    }
+    fn one_(&self) -> bool {
+        One::one(self)
+    }
+    fn m_add(a: bool, b: bool) -> Option<bool> {
+        Some(a | b)
+    }
+    fn m_mul(a: bool, b: bool) -> Option<bool> {
+        Some(a & b)
+    }
+    fn m_zero() -> bool {
+        false
+    }
+    fn m_one() -> bool {
+        true
+    }
+}
+
+impl App for Multiplicity {
+    type Raw = u32;
+    const NAME: &'static str = "Multiplicity";
+    const CLAIM: &'static str = "(N, +, *, 0, 1)";
+    fn alphabet() -> Vec<u32> {
+        vec![0, 1, 2, 3, 65535, 65536, u32::MAX - 1, u32::MAX]
+    }
+    fn make(r: u32) -> Self {
+        Multiplicity::new(r)
+    }
+    fn raw(&self) -> u32 {
+        peek::<Multiplicity, u32>(self)
+    }
+    fn add_(&mut self, o: Self) {
+        Addition::add(self, o)
+    }
+    fn mul_(&mut self, o: Self) {
+        Multiplication::mul(self, o)
+    }
+    fn zero_(&self) -> u32 {
+        Zero::zero(self)
+    }
+    fn one_(&self) -> u32 {
+        One::one(self)
+    }
+    fn m_add(a: u32, b: u32) -> Option<u32> {
+        u32::try_from(a as u64 + b as u64).ok()
+    }
+    fn m_mul(a: u32, b: u32) -> Option<u32> {
+        u32::try_from(a as u64 * b as u64).ok()
+    }
+    fn m_zero() -> u32 {
+        0
+    }
+    fn m_one() -> u32 {
+        1
+    }
+}
+
+impl App for Cost {
+    type Raw = U32WithInfinity;
+    const NAME: &'static str = "Cost";
+    const CLAIM: &'static str = "(N U Inf, min, +, inf, 0)";
+    fn alphabet() -> Vec<U32WithInfinity> {
+        use U32WithInfinity::*;
+        vec![Finite(0), Finite(1), Finite(2), Finite(u32::MAX - 1), Finite(u32::MAX), Infinity]
+    }
+    fn make(r: U32WithInfinity) -> Self {
+        Cost::new(r)
+    }
+    fn raw(&self) -> U32WithInfinity {
+        peek::<Cost, U32WithInfinity>(self)
+    }
+    fn add_(&mut self, o: Self) {
+        Addition::add(self, o)
+    }
+    fn mul_(&mut self, o: Self) {
+        Multiplication::mul(self, o)
+    }
+    fn zero_(&self) -> U32WithInfinity {
+        Zero::zero(self)
+    }
+    fn one_(&self) -> U32WithInfinity {
+        One::one(self)
+    }
+    fn m_add(a: U32WithInfinity, b: U32WithInfinity) -> Option<U32WithInfinity> {
+        use U32WithInfinity::*;
+        Some(match (a, b) {
+            (Infinity, x) => x,
+            (x, Infinity) => x,
+            (Finite(x), Finite(y)) => Finite(if x < y { x } else { y }),
+        })
+    }
+    fn m_mul(a: U32WithInfinity, b: U32WithInfinity) -> Option<U32WithInfinity> {
+        use U32WithInfinity::*;
+        match (a, b) {
+            (Finite(x), Finite(y)) => u32::try_from(x as u64 + y as u64).ok().map(Finite),
+            _ => Some(Infinity),
+        }
+    }
+    fn m_zero() -> U32WithInfinity {
+        U32WithInfinity::Infinity
+    }
+    fn m_one() -> U32WithInfinity {
+        U32WithInfinity::Finite(0)
+    }
+}
+
+/// fixed-point helpers: the f64 alphabet is dyadic, so products of up to three values are exact
+/// multiples of 2^-12.
+fn fix(x: f64) -> u64 {
+    let f = x * 4096.0;
+    assert!(f.fract() == 0.0 && f >= 0.0, "alphabet value {x} is not a multiple of 2^-12");
+    f as u64
+}
+fn unfix(n: u64) -> f64 {
+    n as f64 / 4096.0
+}
+
+impl App for ConfidenceScore {
+    type Raw = f64;
+    const NAME: &'static str = "ConfidenceScore";
+    const CLAIM: &'static str = "([0,1], max, *, 0, 1)";
+    fn alphabet() -> Vec<f64> {
+        vec![0.0, 0.25, 0.5, 1.0]
+    }
+    fn make(r: f64) -> Self {
+        ConfidenceScore::new(r)
+    }
+    fn raw(&self) -> f64 {
+        peek::<ConfidenceScore, f64>(self)
+    }
+    fn add_(&mut self, o: Self) {
+        Addition::add(self, o)
+    }
+    fn mul_(&mut self, o: Self) {
+        Multiplication::mul(self, o)
+    }
+    fn zero_(&self) -> f64 {
+        Zero::zero(self)
+    }
+    fn one_(&self) -> f64 {
+        One::one(self)
+    }
+    fn m_add(a: f64, b: f64) -> Option<f64> {
+        Some(unfix(fix(a).max(fix(b))))
+    }
+    fn m_mul(a: f64, b: f64) -> Option<f64> {
+        let p = fix(a) * fix(b);
+        assert!(p % 4096 == 0, "product {a}*{b} leaves the 2^-12 grid");
+        Some(unfix(p / 4096))
+    }
+    fn m_zero() -> f64 {
+        0.0
+    }
+    fn m_one() -> f64 {
+        1.0
+    }
+}
+
+impl App for FuzzyLogic {
+    type Raw = f64;
+    const NAME: &'static str = "FuzzyLogic";
+    const CLAIM: &'static str = "([0,1], max, min, 0, 1)";
+    fn alphabet() -> Vec<f64> {
+        vec![0.0, 0.25, 0.5, 1.0]
+    }
+    fn make(r: f64) -> Self {
+        FuzzyLogic::new(r)
+    }
+    fn raw(&self) -> f64 {
+        peek::<FuzzyLogic, f64>(self)
+    }
+    fn add_(&mut self, o: Self) {
+        Addition::add(self, o)
+    }
+    fn mul_(&mut self, o: Self) {
+        Multiplication::mul(self, o)
+    }
+    fn zero_(&self) -> f64 {
+        Zero::zero(self)
+    }
+    fn one_(&self) -> f64 {
+        One::one(self)
+    }
+    fn m_add(a: f64, b: f64) -> Option<f64> {
+        Some(unfix(fix(a).max(fix(b))))
+    }
+    fn m_mul(a: f64, b: f64) -> Option<f64> {
+        Some(unfix(fix(a).min(fix(b))))
+    }
+    fn m_zero() -> f64 {
+        0.0
+    }
+    fn m_one() -> f64 {
+        1.0
+    }
+}
+
+/// Expression over the three quantified variables and the two constants.
+#[derive(Clone, Debug)]
+enum E {
+    A,
+    B,
+    C,
+    Zero,
+    One,
+    Add(Box<E>, Box<E>),
+    Mul(Box<E>, Box<E>),
+}
+fn add(l: E, r: E) -> E {
+    E::Add(Box::new(l), Box::new(r))
+}
+fn mul(l: E, r: E) -> E {
+    E::Mul(Box::new(l), Box::new(r))
+}
+
+/// the laws of a semiring (arity = number of quantified variables)
+fn laws() -> Vec<(&'static str, usize, E, E)> {
+    use E::*;
+    vec![
+        ("add_associative", 3, add(add(A, B), C), add(A, add(B, C))),
+        ("add_commutative", 2, add(A, B), add(B, A)),
+        ("add_zero_right", 1, add(A, Zero), A),
+        ("add_zero_left", 1, add(Zero, A), A),
+        ("mul_associative", 3, mul(mul(A, B), C), mul(A, mul(B, C))),
+        ("mul_one_right", 1, mul(A, One), A),
+        ("mul_one_left", 1, mul(One, A), A),
+        ("zero_absorbs_right", 1, mul(A, Zero), Zero),
+        ("zero_absorbs_left", 1, mul(Zero, A), Zero),
+        ("left_distributive", 3, mul(A, add(B, C)), add(mul(A, B), mul(A, C))),
+        ("right_distributive", 3, mul(add(B, C), A), add(mul(B, A), mul(C, A))),
+    ]
+}
+
+fn eval_real<T: App>(e: &E, env: &[T::Raw; 3]) -> T {
+    match e {
+        E::A => T::make(env[0]),
+        E::B => T::make(env[1]),
+        E::C => T::make(env[2]),
+        // the constants are the ones the type itself reports through Zero / One
+        E::Zero => {
+            let probe = T::make(env[0]);
+            T::make(probe.zero_())
+        }
+        E::One => {
+            let probe = T::make(env[0]);
+            T::make(probe.one_())
+        }
+        E::Add(l, r) => {
+            let mut x = eval_real::<T>(l, env);
+            let y = eval_real::<T>(r, env);
+            x.add_(y);
+            x
+        }
+        E::Mul(l, r) => {
+            let mut x = eval_real::<T>(l, env);
+            let y = eval_real::<T>(r, env);
+            x.mul_(y);
+            x
+        }
+    }
+}
+fn eval_model<T: App>(e: &E, env: &[T::Raw; 3]) -> Option<T::Raw> {
+    Some(match e {
+        E::A => env[0],
+        E::B => env[1],
+        E::C => env[2],
+        E::Zero => T::m_zero(),
+        E::One => T::m_one(),
+        E::Add(l, r) => T::m_add(eval_model::<T>(l, env)?, eval_model::<T>(r, env)?)?,
+        E::Mul(l, r) => T::m_mul(eval_model::<T>(l, env)?, eval_model::<T>(r, env)?)?,
+    })
+}
+
+fn judge<T: App>(law: &str, lhs: &E, rhs: &E, env: [T::Raw; 3], arity: usize, order: (u64, u64), acc: &mut Acc) {
+    acc.st.eval();
+    let rl = catch(|| eval_real::<T>(lhs, &env).raw());
+    let rr = catch(|| eval_real::<T>(rhs, &env).raw());
+    let ml = eval_model::<T>(lhs, &env);
+    let mr = eval_model::<T>(rhs, &env);
+    acc.st.nontrivial(&(T::NAME, law, format!("{:?}", &env[..arity])));
+    let vars = format!("{:?}", &env[..arity]);
+    let mut hit = |kind: &str, text: String, acc: &mut Acc| {
+        let envs: Vec<String> = env.iter().map(|x| format!("{x:?}")).collect();
+        acc.cl.hit(&format!("semiring::{}/{law}/{kind}", T::NAME), order, || {
+            (
+                format!("vars={vars}"),
+                format!("{} claims {}: law {law} with (a,b,c)[..{arity}] = {vars}: {text}", T::NAME, T::CLAIM),
+                json!({"semiring": T::NAME, "law": law, "env": envs}),
+            )
+        });
+    };
+    match (ml, mr) {
+        (Some(a), Some(b)) => {
+            // the model is a semiring: both sides agree in the claimed structure
+            assert!(a == b, "oracle bug: model violates {law} on {vars}");
+            match (&rl, &rr) {
+                (Ok(x), Ok(y)) => {
+                    acc.count(&format!("semiring/{}:law_instances_exact", T::NAME));
+                    acc.st.outcome(&(T::NAME, "exact", format!("{x:?}")));
+                    if *x != a || *y != b {
+                        hit("wrong-value", format!("lhs = {x:?}, rhs = {y:?}, exact value {a:?}"), acc);
+                    }
+                }
+                _ => {
+                    acc.st.outcome(&(T::NAME, "panic-in-range"));
+                    hit("panics-in-range", format!("lhs -> {rl:?}, rhs -> {rr:?} although every intermediate value ({a:?}) is representable"), acc);
+                }
+            }
+        }
+        _ => match (&rl, &rr) {
+            (Ok(x), Ok(y)) => {
+                acc.count(&format!("semiring/{}:overflow_silent", T::NAME));
+                acc.st.outcome(&(T::NAME, "overflow-silent", x == y));
+                if x != y {
+                    hit(
+                        "law-broken-by-silent-overflow",
+                        format!("lhs = {x:?}, rhs = {y:?} (no panic; an intermediate exceeds the carrier type; exact lhs {ml:?}, exact rhs {mr:?})"),
+                        acc,
+                    );
+                }
+            }
+            _ => {
+                acc.count(&format!("semiring/{}:overflow_refused_by_panic", T::NAME));
+                acc.st.outcome(&(T::NAME, "overflow-refused", rl.is_ok(), rr.is_ok()));
+            }
+        },
+    }
+}
+
+fn self_test<T: App>() {
+    for r in T::alphabet() {
+        let back = T::make(r).raw();
+        if back != r {
+            println!("MACHINERY-ERROR: semiring {}: field access self-test failed ({r:?} read back as {back:?})", T::NAME);
+            std::process::exit(2);
+        }
+    }
+}
+
+fn run_app<T: App>(sec: u64, app_idx: u64, acc: &mut Acc) {
+    self_test::<T>();
+    let al = T::alphabet();
+    // the identities the type reports must be the claimed ones
+    acc.st.eval();
+    let probe = T::make(al[0]);
+    if probe.zero_() != T::m_zero() || probe.one_() != T::m_one() {
+        let (z, o) = (probe.zero_(), probe.one_());
+        acc.cl.hit(&format!("semiring::{}/constants/wrong-value", T::NAME), (sec, app_idx << 32), || {
+            (String::from("zero,one"), format!("{} reports zero = {z:?}, one = {o:?}; claimed {}", T::NAME, T::CLAIM), json!({"semiring": T::NAME, "law": "constants", "env": []}))
+        });
+    }
+    let mut idx = app_idx << 32;
+    for (law, arity, lhs, rhs) in laws() {
+        let n = al.len();
+        let total = n.pow(arity as u32);
+        for k in 0..total {
+            let env = [al[k % n], al[(k / n) % n], al[(k / n / n) % n]];
+            idx += 1;
+            judge::<T>(law, &lhs, &rhs, env, arity, (sec, idx), acc);
+        }
+    }
+}
+
+pub fn run(sec: u64) -> Acc {
+    // BinaryTrust(false) is forged: check the forged `true` is indistinguishable from the real one
+    let t: BinaryTrust = forge::<BinaryTrust, bool>(true);
+    if t != BinaryTrust::new() || format!("{:?}", BinaryTrust::make(false)) != "BinaryTrust(false)" {
+        println!("MACHINERY-ERROR: BinaryTrust layout self-test failed");
+        std::process::exit(2);
+    }
+    let mut acc = Acc::new();
+    run_app::<BinaryTrust>(sec, 0, &mut acc);
+    run_app::<Multiplicity>(sec, 1, &mut acc);
+    run_app::<Cost>(sec, 2, &mut acc);
+    run_app::<ConfidenceScore>(sec, 3, &mut acc);
+    run_app::<FuzzyLogic>(sec, 4, &mut acc);
+    acc
+}
+
+fn replay_app<T: App>(case: &Value, verbose: bool) -> Classes {
+    let mut acc = Acc::new();
+    let al = T::alphabet();
+    let law = case["law"].as_str().unwrap_or("");
+    if law == "constants" {
+        run_app::<T>(0, 0, &mut acc);
+        acc.cl.map.retain(|k, _| k.contains("/constants/"));
+        return acc.cl;
+    }
+    let envs: Vec<T::Raw> = case["env"]
+        .as_array()
+        .expect("env")
+        .iter()
+        .map(|s| {
+            let s = s.as_str().unwrap();
+            *al.iter().find(|x| format!("{x:?}") == s).unwrap_or_else(|| panic!("value {s} not in alphabet"))
+        })
+        .collect();
+    let env = [envs[0], envs[1], envs[2]];
+    for (l, arity, lhs, rhs) in laws() {
+        if l == law {
+            if verbose {
+                let rl = catch(|| eval_real::<T>(&lhs, &env).raw());
+                let rr = catch(|| eval_real::<T>(&rhs, &env).raw());
+                println!("  {} {law} on {:?}: real lhs = {rl:?}, real rhs = {rr:?}, exact lhs = {:?}, exact rhs = {:?}", T::NAME, &env[..arity], eval_model::<T>(&lhs, &env), eval_model::<T>(&rhs, &env));
+            }
+            judge::<T>(l, &lhs, &rhs, env, arity, (0, 0), &mut acc);
+        }
+    }
+    acc.cl
+}
+
+pub fn replay_case(case: &Value, verbose: bool) -> Classes {
+    match case["semiring"].as_str().unwrap_or("") {
+        "BinaryTrust" => replay_app::<BinaryTrust>(case, verbose),
+        "Multiplicity" => replay_app::<Multiplicity>(case, verbose),
+        "Cost" => replay_app::<Cost>(case, verbose),
+        "ConfidenceScore" => replay_app::<ConfidenceScore>(case, verbose),
+        "FuzzyLogic" => replay_app::<FuzzyLogic>(case, verbose),
+        other => panic!("unknown semiring {other}"),
+    }
+}
